@@ -443,6 +443,9 @@ type GenCfg struct {
 	NegCaps    int  // per mille of caps that are negative
 	WorldProb  int  // per mille of account positions that are @world
 	UnbVarProb int  // per mille
+	Hostile    int  // per mille of account variable values that are not account names
+	Garbage    int  // per mille of variable values that are arbitrary text
+	LeadSaves  bool // the script starts with one to three save statements
 }
 
 var accountPool = []string{"a", "b", "c", "d", "users:001", "e-x_1"}
@@ -474,9 +477,12 @@ func NewGen(r *Rand, cfg GenCfg) *Gen {
 	// balance sheet first: amounts in the script are chosen around it
 	for _, a := range accountPool {
 		for _, c := range assetPool {
-			if r.Chance(3, 5) {
+			if r.Chance(17, 20) {
 				v := r.Amount(nil, false)
-				if r.Chance(1, 6) {
+				if r.Chance(1, 2) {
+					v.Add(v, bi(int64(r.Intn(150))))
+				}
+				if r.Chance(1, 8) {
 					v.Neg(v)
 				}
 				if g.bal[a] == nil {
@@ -558,11 +564,18 @@ func (g *Gen) portionText(num, den *big.Int) string {
 }
 
 func (g *Gen) rawValue(typ string) string {
+	if g.cfg.Garbage > 0 && g.r.Intn(1000) < g.cfg.Garbage {
+		return g.r.Pick([]string{"", " ", "abc", "12", "-7", "+5", "USD", "USD 10", "USD  10", "USD 1 0", "USD ten", "10 USD", "1/2", "1/0", "3/2",
+			"50%", "150%", "1.5%", ".5%", "5.%", "0x10", "1e3", "1_000", "99999999999999999999999999", "world", "a:b", "é", "USD -5", " 5", "5 "})
+	}
 	switch typ {
 	case "account":
+		if g.cfg.Hostile > 0 && g.r.Intn(1000) < g.cfg.Hostile {
+			return g.r.Pick([]string{"", "<kept>", "a b", "@a", "a:", ":a", "a::b", "é", "a\n", "world ", "-"})
+		}
 		return g.account()
 	case "asset":
-		if g.r.Chance(4, 5) {
+		if g.r.Chance(19, 20) {
 			return g.asset
 		}
 		return g.r.Pick(assetPool)
@@ -573,10 +586,10 @@ func (g *Gen) rawValue(typ string) string {
 		return bi(int64(g.r.Intn(40))).String()
 	case "monetary":
 		a := g.asset
-		if g.r.Chance(1, 8) {
+		if g.r.Chance(1, 25) {
 			a = g.r.Pick(assetPool)
 		}
-		return a + " " + g.r.Amount(g.amounts, g.r.Chance(1, 10)).String()
+		return a + " " + g.r.Amount(g.amounts, g.r.Chance(1, 20)).String()
 	case "portion":
 		d := int64(1 + g.r.Intn(8))
 		n := int64(g.r.Intn(int(d) + 1))
@@ -625,7 +638,7 @@ func (g *Gen) declare(typ string) string {
 	}
 	if !vi.hasOrigin {
 		vi.raw = g.rawValue(typ)
-		if !g.r.Chance(1, 40) { // sometimes the variable is missing from the map
+		if !g.r.Chance(1, 150) { // sometimes the variable is missing from the map
 			g.rawVars[name] = vi.raw
 		}
 	}
@@ -637,9 +650,18 @@ func (g *Gen) declare(typ string) string {
 func (g *Gen) varOf(typ string) *GExpr {
 	var cands []string
 	for _, v := range g.vars {
-		if v.typ == typ {
-			cands = append(cands, v.name)
+		if v.typ != typ {
+			continue
 		}
+		// asset-carrying variables are reused only when they carry the statement's asset
+		// (otherwise most scripts end in a currency mismatch)
+		if typ == "asset" && !v.hasOrigin && v.raw != g.asset && !g.r.Chance(1, 10) {
+			continue
+		}
+		if typ == "monetary" && !v.hasOrigin && !strings.HasPrefix(v.raw, g.asset+" ") && !g.r.Chance(1, 10) {
+			continue
+		}
+		cands = append(cands, v.name)
 	}
 	if len(cands) > 0 && g.r.Chance(3, 5) {
 		return &GExpr{Kind: XVar, S: g.r.Pick(cands)}
@@ -691,7 +713,7 @@ func (g *Gen) exprOf(typ string, depth int) *GExpr {
 		return g.varOf("account")
 	case "asset":
 		if g.r.Chance(7, 10) {
-			if g.r.Chance(9, 10) {
+			if g.r.Chance(49, 50) {
 				return &GExpr{Kind: XAsset, S: g.asset}
 			}
 			return &GExpr{Kind: XAsset, S: g.r.Pick(assetPool)}
@@ -887,19 +909,99 @@ func (g *Gen) dest(depth int) *GDest {
 	}
 }
 
+// estimateSupply: what the bounded leaves of a source could give at most (caps ignored), and
+// whether some leaf is unbounded. Only used to centre the sent amount on the interesting threshold.
+func (g *Gen) estimateSupply(s *GSource) (*big.Int, bool) {
+	total := new(big.Int)
+	unb := false
+	var acct func(e *GExpr) string
+	acct = func(e *GExpr) string {
+		switch e.Kind {
+		case XAccount:
+			return e.S
+		case XVar:
+			return g.rawVars[e.S]
+		}
+		return ""
+	}
+	var walk func(s *GSource)
+	walk = func(s *GSource) {
+		switch s.Kind {
+		case SrcAccount, SrcOverdraft:
+			a := acct(s.E)
+			if a == "world" || (s.Kind == SrcOverdraft && s.Bounded == nil) {
+				unb = true
+				return
+			}
+			b := new(big.Int)
+			if v, ok := g.bal[a][g.asset]; ok {
+				b.Set(v)
+			}
+			if s.Kind == SrcOverdraft && s.Bounded != nil && s.Bounded.Kind == XMonetary && s.Bounded.B.Kind == XNumber {
+				b.Add(b, s.Bounded.B.N)
+			}
+			if b.Sign() > 0 {
+				total.Add(total, b)
+			}
+		case SrcInorder:
+			for _, x := range s.Subs {
+				walk(x)
+			}
+		case SrcAllot:
+			for _, it := range s.Items {
+				walk(it.From)
+			}
+		case SrcCapped:
+			walk(s.From)
+		}
+	}
+	walk(s)
+	return total, unb
+}
+
+func (g *Gen) sendAmount(supply *big.Int, unbounded bool) *big.Int {
+	switch g.r.Weighted(35, 30, 12, 8, 15) {
+	case 0: // within the supply
+		if !unbounded {
+			return g.r.BigBelow(new(big.Int).Add(supply, bi(1)))
+		}
+		return bi(int64(g.r.Intn(30)))
+	case 1: // the threshold itself, and its neighbours
+		if unbounded {
+			return g.r.Amount(g.amounts, false)
+		}
+		v := new(big.Int).Add(supply, bi(int64(g.r.Intn(3)-1)))
+		if v.Sign() < 0 {
+			v.SetInt64(0)
+		}
+		return v
+	case 2:
+		if unbounded || supply.Cmp(bi(3)) >= 0 {
+			return bi(int64(g.r.Intn(4)))
+		}
+		return bi(0)
+	case 3:
+		return g.r.Amount(g.amounts, false)
+	default:
+		// a fraction of the supply
+		return new(big.Int).Div(supply, bi(int64(1+g.r.Intn(4))))
+	}
+}
+
 func (g *Gen) sendStmt() *GStmt {
-	g.asset = assetPool[g.r.Weighted(75, 15, 10)]
+	g.asset = assetPool[g.r.Weighted(80, 12, 8)]
 	all := g.r.Intn(1000) < g.cfg.SendAll
 	st := &GStmt{Kind: StSend}
+	st.Src = g.source(g.cfg.MaxDepth, all)
 	if all {
 		st.Sent = &GSent{All: true, E: g.exprOf("asset", 0)}
 	} else {
-		// the amount: literal around the balances, or a variable / sum
+		supply, unb := g.estimateSupply(st.Src)
 		var e *GExpr
-		if g.r.Chance(7, 10) {
-			n := g.r.Amount(g.amounts, false)
-			if !n.IsInt64() {
-				// beyond int64: through a variable
+		if g.r.Chance(8, 10) {
+			n := g.sendAmount(supply, unb)
+			if !n.IsInt64() || g.r.Chance(1, 8) {
+				// beyond int64 (or just for variety): through a variable
 				name := g.freshName()
 				raw := g.asset + " " + n.String()
 				g.prog.Vars = append(g.prog.Vars, &GVarDecl{Type: "monetary", Name: name})
@@ -907,7 +1009,7 @@ func (g *Gen) sendStmt() *GStmt {
 				g.rawVars[name] = raw
 				e = &GExpr{Kind: XVar, S: name}
 			} else {
-				if g.r.Chance(1, 25) {
+				if g.r.Chance(1, 60) {
 					n = bi(-int64(1 + g.r.Intn(5)))
 				}
 				e = &GExpr{Kind: XMonetary, A: g.exprOf("asset", 0), B: &GExpr{Kind: XNumber, N: n}}
@@ -917,7 +1019,6 @@ func (g *Gen) sendStmt() *GStmt {
 		}
 		st.Sent = &GSent{E: e}
 	}
-	st.Src = g.source(g.cfg.MaxDepth, all)
 	st.Dst = g.dest(g.cfg.MaxDepth)
 	return st
 }
@@ -969,6 +1070,12 @@ func (g *Gen) Program() *GProgram {
 	g.asset = "USD"
 	g.flag = g.r.Chance(1, 2)
 	n := 1 + g.r.Intn(g.cfg.MaxStmts)
+	if g.cfg.LeadSaves {
+		k := 1 + g.r.Weighted(50, 35, 15)
+		for i := 0; i < k; i++ {
+			g.prog.Stmts = append(g.prog.Stmts, g.saveStmt())
+		}
+	}
 	if g.cfg.OneSend {
 		nsave := 0
 		if g.cfg.Saves {
